@@ -960,6 +960,10 @@ func ModifyRegister(register *object.Register, in ast.Node) (ast.Node, bool) {
 			register.Count++
 			return register, true
 		}
+		if in.Literal() == "eval" {
+			// The evaluated text may read or assign the name, which must then be a real variable.
+			return nil, false
+		}
 	case *ast.IndexExpression:
 		// m.name is the string key "name", not the value of the variable (the index was already replaced, children first).
 		if r, ok := in.Index.(*object.Register); ok && r == register && in.Type() == token.DOT {
